@@ -56,7 +56,7 @@ func zzStubSetTrafficSecret(hc *halfConn, suite *cipherSuiteTLS13, level QUICEnc
 }
 
 //verif:harness C10 server_picks_offered_key_share unwind=4000 instrs=600000000 paths=40000 wall=900
-//verif:stub (*math/rand.Rand).Shuffle zzStubShuffle
+//verif:stub (*math/rand.Rand).Shuffle zzStubShuffleIdentity
 //verif:stub (*utls.Conn).sendAlert zzStubSendAlert
 //verif:stub (*crypto/ecdh.PrivateKey).ECDH zzStubECDH
 //verif:stub utls.kyberDecapsulate zzStubKyberDecapsulate
@@ -153,7 +153,7 @@ func zzC10ServerPicksOfferedKeyShare() {
 }
 
 //verif:harness C10 server_picks_offered_version_and_suite unwind=4000 instrs=600000000 paths=60000 wall=900
-//verif:stub (*math/rand.Rand).Shuffle zzStubShuffle
+//verif:stub (*math/rand.Rand).Shuffle zzStubShuffleIdentity
 //verif:stub (*utls.Conn).sendAlert zzStubSendAlert
 //verif:expect end
 //verif:doc C10 kernels: for every predefined parrot, every version it advertises on the wire is accepted by pickTLSVersion; every offered TLS 1.3 suite is accepted by checkServerHelloOrHRR (session id echoed); every offered TLS 1.0-1.2 suite that utls implements is accepted by pickCipherSuite; every offered ALPN protocol is accepted by checkALPN; every signature algorithm in the wire signature_algorithms extension that utls implements passes the acceptance test the TLS 1.2 key agreement applies to the server's choice.
